@@ -127,19 +127,28 @@ def run(ctx):
     behaviours = uniq
     cases = [{"steps": [{k: s[k] for k in ("a", "x", "n", "use", "own", "src")} for s in b]} for b in behaviours]
     exe, lib = ctx.build_harness("acct_replay", ["acct_replay.cpp"])
-    steps = replayed = ncrash = 0
+    steps = replayed = ncrash = leak_checks = 0
     for mode in (["Serial", "OpenMP"] if thorough else ["Serial"]):
         env = ctx.occa_env(lib, "occa-cache-" + mode)
         env["HR_MODE"] = mode
         env["UBSAN_OPTIONS"] = "print_stacktrace=1:halt_on_error=0"
+        # LeakSanitizer as a monitor: after every 50th behaviour (everything released) no heap block allocated by
+        # the library may be unreachable -- "released" must also mean given back
+        env["ASAN_OPTIONS"] = "detect_leaks=1:leak_check_at_exit=0:abort_on_error=0:exitcode=86:detect_stack_use_after_return=0"
+        env["HR_LEAKCHECK"] = str(c01.LEAK_EVERY)
         outs, crashes = c01.parallel_replay(ctx, exe, env, cases, W)
         steps += compare(ctx, behaviours, cases, outs, crashes, mode)
+        results, chunks = c01.parallel_replay.last
+        c01.find_leaks(ctx, exe, env, cases, results, chunks, c01.LEAK_EVERY,
+                       lambda g: [(t["a"], t["x"], t["n"]) + ((t["use"], t["own"], t["src"]) if t["a"] == "malloc" else ())
+                                  for t in behaviours[g]])
+        leak_checks += sum(len(r[0]) - 2 for r in results) // c01.LEAK_EVERY
         replayed += len(outs)
         ncrash += len(crashes)
     ctx.traces_validated = replayed
     k = len(cases)
     ctx.samples = [cases[0], cases[k // 3], cases[(2 * k) // 3], cases[-1]]
-    ctx.cov.update({"behaviours_replayed": replayed, "distinct_behaviours": k, "steps_checked": steps, "crashes": ncrash,
+    ctx.cov.update({"behaviours_replayed": replayed, "distinct_behaviours": k, "steps_checked": steps, "crashes": ncrash, "leak_checks": leak_checks,
                     "generated": gen_counts, "actions_taken_in_design_run": cov, "leaky_counterexample": True})
     ctx.assumptions += [
         "one device per history; malloc sizes 16/48 bytes; pool reservations of exactly one 128-byte cell (alignment 128), so that "
@@ -147,5 +156,7 @@ def run(ctx):
         "use_host_pointer x own_host_pointer x (source pointer given or not) are per-call memory properties",
         "the transient old+new peak inside a pool resize with live reservations counts for maxMemoryAllocated() (it is the true high-water mark)",
         "modes Serial (quick) and Serial+OpenMP (thorough)",
+        "LeakSanitizer is a monitor (every 50 behaviours, after everything was released); it can miss a block that a stale "
+        "stack slot still points at",
     ]
     return ctx.finish(exhaustive=False)
